@@ -154,6 +154,7 @@ HOMOG = {
 ZERO_PRESERVING = {"real", "imag", "sum", "mean", "getitem", "fft", "ifft", "fft2", "ifft2", "rfft", "irfft",
                    "rfft2", "irfft2", "fftshift", "ifftshift", "T", "flatten", "reshape", "loopsum", "abs", "std",
                    "var", "sort", "max", "min", "astype", "flipud", "fliplr"}
+META_FNS = {"shape", "ndim", "len", "dtype", "size"}
 SAME_DEGREE = {"maximum", "append", "setitem", "where3", "paths", "clip"}
 # functions that may yield complex values from real arguments
 COMPLEX_FNS = {"fft", "ifft", "fft2", "ifft2", "rfft", "rfft2", "userfft"}
@@ -959,6 +960,8 @@ def atom_degree(a, target):
     if isinstance(a, Fn):
         if not any(val_depends(x, target) for x in a.args):
             return Fraction(0)
+        if a.name in META_FNS:
+            return Fraction(0)          # shape / rank / dtype do not depend on the values
         if a.name == "cmp":
             # scale-invariant iff both sides have the same degree (or one side is 0)
             da, db = val_degree(a.args[1], target), val_degree(a.args[2], target)
